@@ -175,8 +175,8 @@ pub fn run(ctx: &mut Ctx) {
                 let mut out = Vec::new();
                 zstd::stream::copy_encode(chunk, &mut out, level as i32).map(|_| out).ok()
             };
-            // (the first dozen stored chunks are enough: a leak of the earlier level shows in all of them)
-            for (i, d) in ra.dict.descriptors.iter().enumerate().take(12) {
+            // (the first three stored chunks are enough: a leak of the earlier level shows in all of them)
+            for (i, d) in ra.dict.descriptors.iter().enumerate().take(3) {
                 if d.archive_size == d.source_size {
                     continue;
                 }
